@@ -494,7 +494,11 @@ async fn one_case(seed: u64, case: u64, max_ops: usize, report: &Report) {
                         );
                     } else if !names_equal {
                         report.violation(
-                            "new-ref-differs-from-parent-version-index-names",
+                            if through_main {
+                                "new-branch-is-not-the-named-parent-version-when-created-through-a-handle-on-another-branch"
+                            } else {
+                                "new-ref-differs-from-parent-version-index-names"
+                            },
                             &format!("{} index names {:?} vs parent {:?}", new.label(), dst.index_names, src.index_names),
                             json!({"ctx": ctx(&h)}),
                         );
@@ -606,7 +610,7 @@ async fn one_case(seed: u64, case: u64, max_ops: usize, report: &Report) {
                                 continue;
                             }
                             report.violation(
-                                &format!("tagged-version-unreadable-{class}"),
+                                &format!("lineage-unreadable-{class}"),
                                 &format!("tag {name} -> {}:v{} cannot be read after step {} ({}): {}", tl.label(), v, rec.idx, rec.kind.name(), e.chars().take(300).collect::<String>()),
                                 json!({"ctx": ctx(&h), "error": e}),
                             );
